@@ -1,40 +1,72 @@
 """C02 — Function signatures equal CPython's view of the same definition.
 
-(C) model get_parameters / handle_function bookkeeping  vs  griffe.visit on generated source
-(O) model cpython_signature                              vs  inspect.signature of the executed definition
-direct property evaluation: griffe.visit vs inspect.signature / typing.get_overloads / property objects
+(T) harness/translate/c02_tables.py regenerates coq/Gen/C02_tables.v (ParameterKind, get_parameters skeleton constants,
+    visitor decorator tables) from the tree under test
+(C) model get_parameters / handle_function bookkeeping with per-definition outcomes / the parameter container
+    vs  griffe.visit on generated source, griffe.Parameters under operation sequences
+(O) model cpython_signature / cpy_exec / cpython_bound / abstract list
+    vs  inspect.signature, exec + typing.get_overloads + property objects, inspect.signature of bound attributes, a plain list
+direct property evaluation: Griffe vs CPython (no model involved) on all of the above
 """
 from __future__ import annotations
 
 import ast
 import inspect
-import itertools
 import sys
+import types
 import typing
 
-ID = "C02"
-LEVEL_TEXT = ("Theorems for all parameter-list lengths: Griffe's reversed/zip_longest default alignment equals CPython's right-alignment "
-              "(names, order, kinds, annotation, which default), required-ness by position, overloads attach in source order, setters/deleters "
-              "keep the property. Model tied to the code by exhaustive-small + random differential runs (model vs griffe.visit vs inspect.signature).")
-LEVEL_NOTE = ("Trusted: Coq kernel, extraction, the ast->model abstraction in the harness, CPython as authority. Annotation/default expression "
-              "text is treated as opaque atoms (C03 covers rendering). All five theorems are closed under the global context.")
-MODEL = ("Model.C02_params", "run_C02")
-COQ_TARGETS = ["Proofs/C02_params.vo"]
-RULE = ("exhaustive count vectors (posonly,args,vararg?,kwonly,kwarg?,#defaults,kw-default mask) with each list <=3 "
-        "(quick: <=2 plus a seeded sample of <=3), x annotations on/off, rotating contexts def/async def/method/lambda default; "
-        "seeded random vectors up to 8 per list; random class bodies of overload/property/setter/deleter/plain defs. "
-        "non-trivial = has at least one default or more than one parameter kind (signatures), at least one decorator (bodies); "
-        "distinct by canonical case value")
-TRUSTED = ["abstraction: harness walks ast.parse(source).args into the model's `arguments` record and maps annotation/default atoms A<k>/<k> to integers"]
-ASSUMPTIONS = ["annotation and default *expression text* is C03's subject; here they are opaque distinct atoms",
-               "ast.parse yields len(kw_defaults)==len(kwonlyargs) and len(defaults)<=len(posonlyargs+args) (theorem hypothesis wf; the ill-formed branch is covered by C02_too_many_defaults_rejected)"]
+from harness.translate import c02_tables
 
-KINDS = {"positional-only": "PO", "positional or keyword": "PK", "variadic positional": "VP", "keyword-only": "KO", "variadic keyword": "VK"}
+ID = "C02"
+LEVEL_TEXT = ("Theorems, all for every input/history: Griffe's reversed/zip_longest default alignment equals CPython's right-alignment (names, order, "
+              "kinds, annotation, which default) over constants regenerated from the source, required-ness, both ill-formed shapes rejected; the parameter "
+              "container refines an abstract list under every operation sequence, lookup by name = first match in iteration order, name/index agree, "
+              "deletion shifts positions and leaves other names alone, distinct names are an invariant (and needed: refutations), the bound-method view of a "
+              "definition equals CPython's; handle_function: names do not interfere, every implementation carries exactly the overloads declared since the "
+              "previous implementation of its name, a re-binding definition resets the name (if/else branches), accessors keep the property, and for "
+              "every body CPython executes, CPython's namespace and overload registry equal Griffe's members and the concatenation of the attached "
+              "overload lists plus the pending ones. Models tied to the code by a translator, exhaustive-small + random differential runs and "
+              "per-object observation through an extension.")
+LEVEL_NOTE = ("Trusted: Coq kernel, extraction, the translator's whitelist, the harness abstraction (ast -> model terms; decorator callable paths "
+              "are supplied by construction of the generated source), CPython as authority. Annotation/default expression text is opaque (C03). "
+              "Modelled, not verified: that the visitor meets the definitions of a body in source order whatever the nesting of if/try blocks "
+              "(the (C) streams exercise it); assignment re-binders (they forward labels) are not in the model. "
+              "CPython's typing registry is cumulative per qualified name: agreement of a *redefined* overloaded name with typing.get_overloads "
+              "is stated as a decomposition theorem, not as equality. All theorems are closed under the global context.")
+MODEL = ("Model.C02_run", "run_C02")
+COQ_TARGETS = ["Model/C02_run.vo", "Proofs/C02_params.vo", "Proofs/C02_container.vo", "Proofs/C02_scope.vo"]
+TRANSLATOR_NAME = "harness/translate/c02_tables.py"
+RULE = ("signatures: exhaustive count vectors (posonly,args,vararg?,kwonly,kwarg?,#defaults,kw-default mask) with each list <=3 "
+        "(quick: <=2 plus a seeded sample of <=3), x annotations on/off, rotating contexts def/async def/method/lambda default; seeded random "
+        "vectors up to 8 per list; bound views of the same vectors as instance/class/static methods; "
+        "bodies: random straight-line class/module/function bodies of decorated defs and other binders (decorators spelled several ways, "
+        "stacked, nested in if/try blocks), idiomatic bodies with repeated overload groups and property blocks per name in sequence and in "
+        "if/else branches; container: random operation sequences (get/set/del by name and index, in, len, iter, add) with probes after each "
+        "mutation, from visited definitions and from directly constructed (possibly duplicate) contents. "
+        "non-trivial = has a default or more than one kind (signatures), a decorator (bodies), a mutation (container); distinct by canonical value")
+TRUSTED = ["abstraction: harness walks ast.parse(source).args into the model's `arguments` record and maps annotation/default atoms A<k>/<k> to integers",
+           "abstraction: definitions/binders of a generated body in source order with def-line ids; decorator callable paths by construction of the source",
+           "translator harness/translate/c02_tables.py (whitelisted AST shapes of enumerations.py, agents/nodes/parameters.py, agents/visitor.py; fails closed)"]
+ASSUMPTIONS = ["annotation and default *expression text* is C03's subject; here they are opaque distinct atoms",
+               "ast.parse yields len(kw_defaults)==len(kwonlyargs) and len(defaults)<=len(posonlyargs+args) (theorem hypothesis wf; both ill-formed branches are covered by C02_too_many_*_rejected)",
+               "bodies: CPython-side agreement is stated for bodies CPython executes without error and whose definitions carry at most one role decorator "
+               "(overload / property / own-name accessor), pass-through decorators being arbitrary (cpy_exec = Ok)"]
+
+KINDS = {"positional-only": "PO", "positional or keyword": "PK", "variadic positional": "VP", "keyword-only": "KO", "variadic keyword": "VK"}  # by value (kept for importers)
+KIND_NAMES = {"positional_only": "PO", "positional_or_keyword": "PK", "var_positional": "VP", "keyword_only": "KO", "var_keyword": "VK"}
 INSPECT_KINDS = {inspect.Parameter.POSITIONAL_ONLY: "PO", inspect.Parameter.POSITIONAL_OR_KEYWORD: "PK",
                  inspect.Parameter.VAR_POSITIONAL: "VP", inspect.Parameter.KEYWORD_ONLY: "KO", inspect.Parameter.VAR_KEYWORD: "VK"}
 
 
-def render_sig(v, ann: bool):
+def translate(ctx):
+    c02_tables.translate(ctx)
+
+
+# =====================================================================================================================
+# signatures
+# =====================================================================================================================
+def render_sig(v, ann: bool, first: str | None = None):
     """v = (npo, nar, va, nko, kw, ndef, kwmask). Returns parameter-list text; atoms: annotations A<k>, defaults 100+k."""
     npo, nar, va, nko, kw, ndef, kwmask = v
     parts = []
@@ -107,46 +139,58 @@ def find_def(tree, path):
     return node
 
 
-def impl_params(src, path):
+def enc_griffe_param(p):
+    ann = [] if p.annotation is None else [int(str(p.annotation)[1:])]
+    if p.default is None:
+        d = []
+    elif str(p.default) in ("()", "{}") and p.kind is not None and p.kind.name.startswith("var_"):
+        d = [1, str(p.default)]
+    else:
+        d = [0, int(str(p.default))]
+    return [p.name, ann, KIND_NAMES[p.kind.name], d, 1 if p.required else 0]
+
+
+def enc_inspect_param(p):
+    ann = [] if p.annotation is inspect.Parameter.empty else [int(p.annotation.__name__[1:])]
+    k = INSPECT_KINDS[p.kind]
+    if k == "VP":
+        d = [1, "()"]
+    elif k == "VK":
+        d = [1, "{}"]
+    elif p.default is inspect.Parameter.empty:
+        d = []
+    else:
+        d = [0, p.default]
+    return [p.name, ann, k, d, 1 if (p.default is inspect.Parameter.empty and k not in ("VP", "VK")) else 0]
+
+
+def griffe_object(src, path):
     import griffe
-    mod = griffe.visit("m", filepath=None, code=src)
-    obj = mod
+    obj = griffe.visit("m", filepath=None, code=src)
     for n in path:
         obj = obj.members[n]
-    out = []
-    for p in obj.parameters:
-        ann = [] if p.annotation is None else [int(str(p.annotation)[1:])]
-        if p.default is None:
-            d = []
-        elif str(p.default) in ("()", "{}") and p.kind.value.startswith("variadic"):
-            d = [1, str(p.default)]
-        else:
-            d = [0, int(str(p.default))]
-        out.append([p.name, ann, KINDS[p.kind.value], d, 1 if p.required else 0])
-    return out, (None if obj.returns is None else str(obj.returns))
+    return obj
+
+
+def impl_params(src, path):
+    obj = griffe_object(src, path)
+    return [enc_griffe_param(p) for p in obj.parameters], (None if obj.returns is None else str(obj.returns))
+
+
+def exec_ns(src, name="<c02>"):
+    ns = {f"A{i}": type(f"A{i}", (), {}) for i in range(40)}
+    ns["R0"] = type("R0", (), {})
+    exec(compile(src, name, "exec", dont_inherit=True), ns)
+    return ns
 
 
 def oracle_params(src, path):
-    ns = {f"A{i}": type(f"A{i}", (), {}) for i in range(40)}
-    ns["R0"] = type("R0", (), {})
-    exec(compile(src, "<c02>", "exec", dont_inherit=True), ns)
+    ns = exec_ns(src)
     obj = ns[path[0]]
     for n in path[1:]:
         obj = getattr(obj, n)
     sig = inspect.signature(obj)
-    out = []
-    for p in sig.parameters.values():
-        ann = [] if p.annotation is inspect.Parameter.empty else [int(p.annotation.__name__[1:])]
-        k = INSPECT_KINDS[p.kind]
-        if k == "VP":
-            d = [1, "()"]
-        elif k == "VK":
-            d = [1, "{}"]
-        elif p.default is inspect.Parameter.empty:
-            d = []
-        else:
-            d = [0, p.default]
-        out.append([p.name, ann, k, d, 1 if (p.default is inspect.Parameter.empty and k not in ("VP", "VK")) else 0])
+    out = [enc_inspect_param(p) for p in sig.parameters.values()]
     ret = None if sig.return_annotation is inspect.Signature.empty else sig.return_annotation.__name__
     return out, ret
 
@@ -167,7 +211,7 @@ def random_vector(rng, maxn=8):
     return (npo, nar, rng.randint(0, 1), nko, rng.randint(0, 1), rng.randint(0, npo + nar), rng.getrandbits(nko) if nko else 0)
 
 
-def check_signatures(ctx, vecs, label):
+def check_signatures(ctx, vecs, label, use_model=True):
     cases = []
     for idx, v in enumerate(vecs):
         for ann in (False, True):
@@ -176,139 +220,655 @@ def check_signatures(ctx, vecs, label):
             tree = ast.parse(src)
             node = find_def(tree, path)
             cases.append((v, ann, cname, src, path, abstract_arguments(node.args)))
-    m_params = ctx.model([["params", c[5]] for c in cases])
-    m_spec = ctx.model([["spec", c[5]] for c in cases])
+    if use_model:
+        m_params = ctx.model([["params", c[5]] for c in cases])
+        m_spec = ctx.model([["spec", c[5]] for c in cases])
+    else:
+        m_params = m_spec = [None] * len(cases)
     for (v, ann, cname, src, path, absargs), mp, ms in zip(cases, m_params, m_spec):
         nontrivial = (v[5] > 0 or v[6] > 0) or sum(1 for x in (v[0], v[1], v[2], v[3], v[4]) if x) > 1
-        ctx.case({"vector": list(v), "annotated": ann, "context": cname, "source": src}, nontrivial)
-        ctx.observe("context", cname)
-        ctx.observe("n_params", v[0] + v[1] + v[2] + v[3] + v[4])
-        ctx.observe("stream", label)
+        if use_model:
+            ctx.case({"vector": list(v), "annotated": ann, "context": cname, "source": src}, nontrivial)
+            ctx.observe("context", cname)
+            ctx.observe("n_params", v[0] + v[1] + v[2] + v[3] + v[4])
+            ctx.observe("stream", label)
+        else:
+            ctx.evaluations += 1
         try:
             ip, iret = impl_params(src, path)
             impl = ["ok", ip]
         except Exception as e:  # noqa: BLE001
             impl, iret = ["err", type(e).__name__], None
         orc, oret = oracle_params(src, path)
-        if mp != impl:
-            ctx.tie_failure("correspondence", "get_parameters(model) vs griffe.visit", {"model": mp, "impl": impl}, {"source": src})
-        if ms[0] != "ok" or ms[2] != 1 or ms[1] != orc:
-            ctx.tie_failure("oracle", "cpython_signature(model) vs inspect.signature", {"model": ms, "cpython": orc}, {"source": src})
+        if use_model:
+            if mp != impl:
+                ctx.tie_failure("correspondence", "get_parameters(model) vs griffe.visit", {"model": mp, "impl": impl}, {"source": src})
+            if ms[0] != "ok" or ms[2] != 1 or ms[1] != orc:
+                ctx.tie_failure("oracle", "cpython_signature(model) vs inspect.signature", {"model": ms, "cpython": orc}, {"source": src})
         if impl != ["ok", orc] or iret != oret:
             ctx.property_failure({"source": src, "path": list(path)}, {"griffe": impl, "cpython": orc, "griffe_returns": iret, "cpython_returns": oret})
+            if not use_model:
+                return True
         ctx.count("signature_cases")
+    return False
 
 
-# ---- class bodies: overloads, properties, setters, deleters
-NAMES = ["f", "g", "x"]
+def check_malformed_arguments(ctx):
+    """ast.arguments that ast.parse never produces: the model's error branches against the real get_parameters."""
+    from _griffe.agents.nodes.parameters import get_parameters
+    rng = ctx.rng
+    cases = []
+    for _ in range(ctx.budget(150, 1500)):
+        npo, nar, nko = rng.randint(0, 3), rng.randint(0, 3), rng.randint(0, 3)
+        nd, nkd = rng.randint(0, npo + nar + 2), rng.randint(0, nko + 2)
+        a = ast.arguments(posonlyargs=[ast.arg(f"p{i}") for i in range(npo)], args=[ast.arg(f"q{i}") for i in range(nar)],
+                          vararg=ast.arg("r") if rng.random() < 0.5 else None, kwonlyargs=[ast.arg(f"k{i}") for i in range(nko)],
+                          kw_defaults=[ast.Constant(200 + i) if rng.random() < 0.6 else None for i in range(nkd)],
+                          kwarg=ast.arg("w") if rng.random() < 0.5 else None, defaults=[ast.Constant(100 + i) for i in range(nd)])
+        for x in a.posonlyargs + a.args + a.kwonlyargs + [y for y in (a.vararg, a.kwarg) if y]:
+            x.annotation = None
+        cases.append(a)
+    outs = ctx.model([["params", abstract_arguments(a)] for a in cases])
+    for a, mo in zip(cases, outs):
+        shape = ("defaults>" if len(a.defaults) > len(a.posonlyargs) + len(a.args) else "defaults<=") + \
+                ("kw>" if len(a.kw_defaults) > len(a.kwonlyargs) else "kw<" if len(a.kw_defaults) < len(a.kwonlyargs) else "kw=")
+        ctx.observe("malformed_shape", shape)
+        ctx.case({"arguments": ast.dump(a)}, True)
+        try:
+            got = []
+            for name, annotation, kind, default in get_parameters(a):
+                d = [] if default is None else [1, default] if isinstance(default, str) else [0, default.value]
+                got.append([name, [], KIND_NAMES[kind.name], d, 1 if default is None else 0])
+            impl = ["ok", got]
+        except Exception as e:  # noqa: BLE001
+            impl = ["err", type(e).__name__]
+        ctx.observe("malformed_result", impl[0] if impl[0] == "ok" else impl[1])
+        if impl != mo:
+            ctx.tie_failure("correspondence", "get_parameters(model) vs get_parameters on ill-formed ast.arguments", {"model": mo, "impl": impl},
+                            {"arguments": ast.dump(a)})
+        ctx.count("malformed_cases")
 
 
-def random_body(rng, n):
-    defs = []
-    for _ in range(n):
-        name = rng.choice(NAMES)
-        r = rng.random()
-        decos = []
-        if r < 0.25:
-            decos = ["overload"]
-        elif r < 0.40:
-            decos = ["property"]
-        elif r < 0.55:
-            decos = [f"{rng.choice(NAMES) if rng.random() < 0.25 else name}.setter"]
-        elif r < 0.65:
-            decos = [f"{rng.choice(NAMES) if rng.random() < 0.25 else name}.deleter"]
-        elif r < 0.72:
-            decos = ["other"]
-        if decos and rng.random() < 0.2:
-            decos.insert(rng.randint(0, len(decos)), "other")
-        if rng.random() < 0.05:
-            decos.append("overload")
-        defs.append((name, decos, rng.random() < 0.15))
-    return defs
+# =====================================================================================================================
+# bound / unbound views (and the container on definition-derived contents)
+# =====================================================================================================================
+def method_source(sig: str, how: str) -> str:
+    deco = {"instance": "", "class": "    @classmethod\n", "static": "    @staticmethod\n"}[how]
+    return f"class C:\n{deco}    def f({sig}): ...\n"
 
 
-def idiomatic_body(rng, scope="module"):
-    """Well-formed idioms only: overloads then implementation; property then setter/deleter.
-    Decorators are stacked the ways real code stacks them (overload outermost over staticmethod/classmethod or a
-    pass-through decorator, or innermost under one); some definitions are coroutines (incl. async properties)."""
-    defs = []
-    order = NAMES[:]
-    rng.shuffle(order)
-    blocks = []
-    for name in order:
-        is_async = rng.random() < 0.25
-        if rng.random() < 0.5:
-            wrap = rng.choice([None, None, "other", "staticmethod", "classmethod"]) if scope == "class" else rng.choice([None, None, "other"])
-            def stack(base):
-                if wrap is None:
-                    return list(base)
-                return [*base, wrap] if rng.random() < 0.6 else [wrap, *base]   # overload above (usual) or below the wrapper
-            blocks.append([(name, stack(["overload"]), is_async) for _ in range(rng.randint(1, 3))] + [(name, stack([]), is_async)])
+def bound_view_griffe(fn, by_name: bool):
+    """What a documentation tool does to show the call signature: drop the first parameter unless static."""
+    import griffe
+    if "staticmethod" in fn.labels:
+        return "kept"
+    if len(fn.parameters) == 0:
+        return "invalid"
+    first = fn.parameters[0]
+    if first.kind in (griffe.ParameterKind.positional_only, griffe.ParameterKind.positional_or_keyword):
+        if by_name:
+            del fn.parameters[first.name]
         else:
-            b = [(name, ["property"], is_async)]
-            if rng.random() < 0.7:
-                b.append((name, [f"{name}.setter"], False))
-            if rng.random() < 0.5:
-                b.append((name, [f"{name}.deleter"], False))
-            blocks.append(b)
-    # interleave blocks while keeping each block's internal order
-    while any(blocks):
-        b = rng.choice([b for b in blocks if b])
-        defs.append(b.pop(0))
-    return defs
+            del fn.parameters[0]
+        return "dropped"
+    if first.kind is griffe.ParameterKind.var_positional:
+        return "kept"
+    return "invalid"
 
 
-def render_body(defs, scope):
-    lines = ["from typing import overload", "def other(f): return f"]
-    ind = ""
-    if scope == "class":
-        lines.append("class C:")
-        ind = "    "
-    for name, decos, is_async in defs:
-        for d in decos:
-            lines.append(f"{ind}@{d}")
-        lines.append(f"{ind}{'async ' if is_async else ''}def {name}(self=None): ...")
-    return "\n".join(lines) + "\n"
-
-
-def abstract_body(src, scope):
-    tree = ast.parse(src)
-    body = tree.body[-1].body if scope == "class" else [n for n in tree.body if isinstance(n, (ast.FunctionDef, ast.AsyncFunctionDef)) and n.name != "other"]
-    out = []
-    for n in body:
-        ds = []
-        for d in n.decorator_list:
-            t = ast.unparse(d)
-            if t == "overload":
-                ds.append(["overload"])
-            elif t == "property":
-                ds.append(["property"])
-            elif t.endswith(".setter"):
-                ds.append(["setter", t[:-7]])
-            elif t.endswith(".deleter"):
-                ds.append(["deleter", t[:-8]])
-            else:
-                ds.append(["other"])
-        out.append([n.lineno, n.name, ds])
+def probe_container(params, names):
+    """Every access path of the container: iteration, len, index (both signs), name, membership."""
+    out = {"iter": [enc_griffe_param(p) for p in params], "len": len(params), "index": [], "name": {}}
+    n = len(params)
+    for i in list(range(-n - 1, n + 1)):
+        try:
+            out["index"].append(enc_griffe_param(params[i]))
+        except IndexError:
+            out["index"].append("IndexError")
+    for nm in names:
+        try:
+            got = enc_griffe_param(params[nm])
+        except KeyError:
+            got = "KeyError"
+        except IndexError:
+            got = "IndexError"
+        out["name"][nm] = [got, nm in params]
     return out
 
 
-def impl_body(src, scope):
-    import griffe
-    mod = griffe.visit("m", filepath=None, code=src)
-    obj = mod.members["C"] if scope == "class" else mod
-    mem = []
-    for name, m in obj.members.items():
-        if name in ("overload", "other"):
-            continue
-        if m.kind.value == "function":
-            mem.append([name, "function", m.lineno if not m.decorators else _def_line(m), [_def_line(o) for o in (m.overloads or [])]])
-        elif m.kind.value == "attribute" and "property" in m.labels:
-            mem.append([name, "property", m.lineno, [] if m.setter is None else [_def_line(m.setter)], [] if m.deleter is None else [_def_line(m.deleter)]])
+def probe_signature(sig: inspect.Signature, names):
+    ps = list(sig.parameters.values())
+    out = {"iter": [enc_inspect_param(p) for p in ps], "len": len(ps), "index": [], "name": {}}
+    n = len(ps)
+    for i in list(range(-n - 1, n + 1)):
+        try:
+            out["index"].append(enc_inspect_param(ps[i]))
+        except IndexError:
+            out["index"].append("IndexError")
+    for nm in names:
+        key = nm.lstrip("*")
+        out["name"][nm] = [enc_inspect_param(sig.parameters[key]) if key in sig.parameters else "KeyError", key in sig.parameters]
+    return out
+
+
+def check_bound_views(ctx, vecs, use_model=True):
+    hows = ("instance", "class", "static")
+    cases = []
+    for idx, v in enumerate(vecs):
+        ann = bool(idx & 1)
+        how = hows[idx % 3]
+        src = method_source(render_sig(v, ann), how)
+        cases.append((v, ann, how, src, bool(idx & 2)))
+    model_out = [None] * len(cases)
+    if use_model:
+        unbound = []
+        for v, ann, how, src, by_name in cases:
+            unbound.append([enc_griffe_param(p) for p in griffe_object(src, ("C", "f")).parameters])
+        model_out = ctx.model([["bound", u] for u in unbound])
+    for (v, ann, how, src, by_name), mo in zip(cases, model_out):
+        if use_model:
+            ctx.case({"bound_view": how, "source": src, "by_name": by_name}, v[0] + v[1] + v[2] + v[3] + v[4] > 0)
+            ctx.observe("bound_how", how)
         else:
-            mem.append([name, "other", 0])
-    buf = sorted([k, [_def_line(o) for o in v]] for k, v in obj.overloads.items() if v)  # defaultdict key order is not observable
-    return [mem, buf]
+            ctx.evaluations += 1
+        fn = griffe_object(src, ("C", "f"))
+        all_names = [p.name for p in fn.parameters]
+        names = all_names + ["*r", "**w", "nope"]
+        unb_g = probe_container(fn.parameters, names)
+        ns = exec_ns(src)
+        raw = ns["C"].__dict__["f"]
+        unb_c = probe_signature(inspect.signature(getattr(raw, "__func__", raw)), names)
+        if unb_g != unb_c:
+            ctx.property_failure({"source": src, "path": ["C", "f"], "view": "unbound"}, {"griffe": unb_g, "cpython": unb_c})
+            if not use_model:
+                return True
+        try:
+            bsig = inspect.signature(ns["C"].f if how != "instance" else ns["C"]().f)
+            cview = ["ok", probe_signature(bsig, names)]
+        except ValueError:
+            cview = ["err", "ValueError"]
+        try:
+            verdict = bound_view_griffe(fn, by_name)
+            gview = ["err", "ValueError"] if verdict == "invalid" else ["ok", probe_container(fn.parameters, names)]
+        except Exception as e:  # noqa: BLE001
+            verdict, gview = "raised", ["raised", type(e).__name__]
+        if use_model:
+            ctx.observe("bound_verdict", verdict)
+        if gview != cview:
+            ctx.property_failure({"source": src, "path": ["C", "f"], "view": f"bound ({how}), first parameter removed by {'name' if by_name else 'index'}"},
+                                 {"griffe": gview, "cpython": cview})
+            if not use_model:
+                return True
+        if use_model:
+            # model: griffe_bound / cpython_bound on the unbound list; static methods are not bound
+            mg, mc = mo
+            if how == "static":
+                exp_g = exp_c = ["ok", unb_c["iter"]]
+                mg = mc = ["ok", unb_c["iter"]] if mg is not None else mg
+            else:
+                exp_g = gview if gview[0] != "ok" else ["ok", gview[1]["iter"]]
+                exp_c = cview if cview[0] != "ok" else ["ok", cview[1]["iter"]]
+            if mg != exp_g:
+                ctx.tie_failure("correspondence", "griffe_bound(model) vs container after dropping the first parameter", {"model": mg, "impl": exp_g}, {"source": src})
+            if mc != exp_c:
+                ctx.tie_failure("oracle", "cpython_bound(model) vs inspect.signature of the bound attribute", {"model": mc, "cpython": exp_c}, {"source": src})
+        ctx.count("bound_cases")
+    return False
+
+
+# =====================================================================================================================
+# the container under operation sequences
+# =====================================================================================================================
+class RefList:
+    """The abstract list the container stands for (authority of the direct check; mirrors a_step of the Coq model)."""
+
+    def __init__(self, items):
+        self.l = list(items)
+
+    def _find(self, key):
+        name = key.lstrip("*")
+        for i, p in enumerate(self.l):
+            if p[0] == name:
+                return i
+        return None
+
+    def step(self, op):
+        kind = op[0]
+        try:
+            if kind == "get":
+                k = op[1]
+                if isinstance(k, int):
+                    return ["ok", self.l[k]]
+                i = self._find(k)
+                if i is None:
+                    raise KeyError(k)
+                return ["ok", self.l[i]]
+            if kind == "set":
+                k, p = op[1], op[2]
+                if isinstance(k, int):
+                    self.l[k] = p
+                else:
+                    i = self._find(k)
+                    if i is None:
+                        self.l.append(p)
+                    else:
+                        self.l[i] = p
+                return ["ok"]
+            if kind == "del":
+                k = op[1]
+                if isinstance(k, int):
+                    del self.l[k]
+                else:
+                    i = self._find(k)
+                    if i is None:
+                        raise KeyError(k)
+                    del self.l[i]
+                return ["ok"]
+            if kind == "len":
+                return ["len", len(self.l)]
+            if kind == "iter":
+                return ["iter", list(self.l)]
+            if kind == "in":
+                return ["bool", 1 if self._find(op[1]) is not None else 0]
+            if kind == "add":
+                if self._find(op[1][0]) is not None:
+                    raise ValueError(op[1][0])
+                self.l.append(op[1])
+                return ["ok"]
+        except (IndexError, KeyError, ValueError) as e:
+            return ["err", type(e).__name__]
+        raise AssertionError(op)
+
+
+def make_griffe_param(enc):
+    import griffe
+    name, ann, kind, d, _req = enc
+    kinds = {v: getattr(griffe.ParameterKind, k) for k, v in KIND_NAMES.items()}
+    default = None if not d else (d[1] if d[0] == 1 else str(d[1]))
+    return griffe.Parameter(name, annotation=None if not ann else f"A{ann[0]}", kind=kinds[kind], default=default)
+
+
+def impl_step(params, op):
+    kind = op[0]
+    try:
+        if kind == "get":
+            return ["ok", enc_griffe_param(params[op[1]])]
+        if kind == "set":
+            params[op[1]] = make_griffe_param(op[2])
+            return ["ok"]
+        if kind == "del":
+            del params[op[1]]
+            return ["ok"]
+        if kind == "len":
+            return ["len", len(params)]
+        if kind == "iter":
+            return ["iter", [enc_griffe_param(p) for p in params]]
+        if kind == "in":
+            return ["bool", 1 if op[1] in params else 0]
+        if kind == "add":
+            params.add(make_griffe_param(op[1]))
+            return ["ok"]
+    except (IndexError, KeyError, ValueError) as e:
+        return ["err", type(e).__name__]
+    raise AssertionError(op)
+
+
+POOL = ["a", "b", "c", "self", "r", "w", "k0"]
+
+
+def random_enc_param(rng, name=None, serial=[0]):
+    serial[0] += 1
+    name = name if name is not None else rng.choice(POOL)
+    kind = rng.choice(["PO", "PK", "PK", "VP", "KO", "VK"])
+    if kind == "VP":
+        d = [1, "()"]
+    elif kind == "VK":
+        d = [1, "{}"]
+    else:
+        d = [0, 100 + serial[0] % 50] if rng.random() < 0.4 else []
+    return [name, [serial[0] % 40] if rng.random() < 0.7 else [], kind, d, 0 if d else 1]
+
+
+def random_key(rng, names, n):
+    if rng.random() < 0.45:
+        return rng.randint(-n - 1, n)
+    nm = rng.choice(names)
+    r = rng.random()
+    return ("*" + nm) if r < 0.1 else ("**" + nm) if r < 0.2 else nm
+
+
+def random_ops(rng, init, nops, dup_ok):
+    names = sorted({p[0] for p in init} | set(rng.sample(POOL, 3)))
+    n = len(init)        # tracked only approximately (failed operations do not change it); keys just need to be near the range
+    ops = []
+
+    def probes():
+        out = [["iter"], ["len"]]
+        for nm in names:
+            out.append(["get", nm])
+            out.append(["in", nm])
+        for i in range(-n, n):
+            out.append(["get", i])
+        return out
+
+    for _ in range(nops):
+        r = rng.random()
+        if r < 0.30:
+            ops.append(["del", random_key(rng, names, n)])
+            n = max(0, n - 1)
+        elif r < 0.45:
+            k = random_key(rng, names, n)
+            if isinstance(k, str) and (not dup_ok or rng.random() < 0.8):
+                p = random_enc_param(rng, k.lstrip("*"))          # the element carries the name it is stored under
+            else:
+                p = random_enc_param(rng, None if dup_ok else rng.choice(names))
+            ops.append(["set", k, p])
+            n += 1 if isinstance(k, str) else 0
+        elif r < 0.60:
+            nm = rng.choice(names)
+            ops.append(["add", random_enc_param(rng, ("*" + nm) if rng.random() < 0.05 else nm)])
+            n += 1
+        elif r < 0.80:
+            ops.append(["get", random_key(rng, names, n)])
+        elif r < 0.90:
+            ops.append(["in", random_key(rng, names, n) if rng.random() < 0.5 else rng.choice(names)])
+            if isinstance(ops[-1][1], int):
+                ops[-1] = ["in", rng.choice(names)]
+        else:
+            ops.append(rng.choice([["len"], ["iter"]]))
+        if ops[-1][0] in ("del", "set", "add") and rng.random() < 0.7:
+            ops.extend(probes())
+    ops.extend(probes())
+    return ops
+
+
+def container_cases(ctx, n):
+    import griffe
+    rng = ctx.rng
+    out = []
+    for i in range(n):
+        if i % 2 == 0:
+            # content built by the visitor from a definition
+            v = random_vector(rng, 3)
+            src = method_source(render_sig(v, bool(i & 2)).replace("p0", "self", 1) if v[0] else render_sig(v, bool(i & 2)), "instance")
+            params = griffe_object(src, ("C", "f")).parameters
+            init = [enc_griffe_param(p) for p in params]
+            origin = "visited"
+        else:
+            dup_ok = i % 4 == 1
+            names = [rng.choice(POOL) for _ in range(rng.randint(0, 5))]
+            if not dup_ok:
+                names = list(dict.fromkeys(names))
+            init = [random_enc_param(rng, nm) for nm in names]
+            params = griffe.Parameters(*[make_griffe_param(p) for p in init])
+            origin = "constructed-dup" if dup_ok else "constructed"
+        ops = random_ops(rng, init, rng.randint(1, 6), origin == "constructed-dup")
+        out.append((origin, init, params, ops))
+    return out
+
+
+def check_container(ctx, n, use_model=True):
+    cases = container_cases(ctx, n)
+    if use_model:
+        m_impl = ctx.model([["ops", init, ops] for _, init, _, ops in cases])
+        m_spec = ctx.model([["ops-spec", init, ops] for _, init, _, ops in cases])
+    else:
+        m_impl = m_spec = [None] * len(cases)
+    for (origin, init, params, ops), mi, ms in zip(cases, m_impl, m_spec):
+        mutations = [o for o in ops if o[0] in ("del", "set", "add")]
+        if use_model:
+            ctx.case({"container": origin, "init": init, "ops": mutations}, bool(mutations))
+            ctx.observe("container_origin", origin)
+            ctx.observe("container_init_len", len(init))
+        else:
+            ctx.evaluations += 1
+        ref = RefList(init)
+        got, exp = [], []
+        for op in ops:
+            got.append(impl_step(params, op))
+            exp.append(ref.step(op))
+            if use_model:
+                ctx.observe("container_op", op[0] + ("-int" if len(op) > 1 and isinstance(op[1], int) else "-str" if len(op) > 1 and isinstance(op[1], str) else ""))
+                ctx.observe("container_result", got[-1][0] if got[-1][0] != "err" else got[-1][1])
+        final_g, final_r = [enc_griffe_param(p) for p in params], ref.l
+        if use_model:
+            if mi != [got, final_g]:
+                k = next((j for j, (a, b) in enumerate(zip(mi[0], got)) if a != b), None)
+                ctx.tie_failure("correspondence", "container(model) vs griffe.Parameters under an operation sequence",
+                                {"first_difference_at": k, "op": ops[k] if k is not None else None, "model": mi[0][k] if k is not None else mi[1],
+                                 "impl": got[k] if k is not None else final_g}, {"init": init, "ops": ops[: (k or 0) + 1]})
+            if ms != [exp, final_r]:
+                ctx.tie_failure("oracle", "abstract list(model) vs reference list", {"model": ms, "reference": [exp, final_r]}, {"init": init, "ops": ops})
+        if got != exp or final_g != final_r:
+            k = next((j for j, (a, b) in enumerate(zip(got, exp)) if a != b), len(ops) - 1)
+            ctx.property_failure({"container_init": init, "ops": ops[: k + 1], "origin": origin},
+                                 {"step": k, "op": ops[k], "griffe": got[k], "abstract_list": exp[k]})
+            if not use_model:
+                return True
+        ctx.count("container_cases")
+    return False
+
+
+# =====================================================================================================================
+# bodies: overloads, properties, accessors, redefinitions
+# =====================================================================================================================
+NAMES = ["f", "g", "x"]
+PRELUDE = ["from typing import overload", "import typing, functools", "from functools import cached_property", "from abc import abstractmethod",
+           "from contextlib import nullcontext", "def other(f): return f", "FLAG_T = True", "FLAG_F = False"]
+# spelled decorator -> callable path as Griffe resolves it (the generated source imports exactly these names)
+DECO_PATHS = {"overload": "typing.overload", "typing.overload": "typing.overload", "property": "property",
+              "functools.cached_property": "functools.cached_property", "cached_property": "functools.cached_property",
+              "other": "m.other", "staticmethod": "staticmethod", "classmethod": "classmethod", "abstractmethod": "abc.abstractmethod",
+              "functools.cache": "functools.cache"}
+ROLE_OVERLOAD = ("overload", "typing.overload")
+ROLE_PROPERTY = ("property", "functools.cached_property", "cached_property")
+
+
+def deco_role(d, name):
+    if d in ROLE_OVERLOAD:
+        return "overload"
+    if d in ROLE_PROPERTY:
+        return "property"
+    if d.endswith(".setter") or d.endswith(".deleter"):
+        return "accessor" if d.rsplit(".", 1)[0] == name else "foreign-accessor"
+    return None
+
+
+def supported_def(name, decos):
+    """At most one role decorator, accessors only for the own name (the shapes the agreement theorem speaks about)."""
+    roles = [r for r in (deco_role(d, name) for d in decos) if r]
+    return len(roles) <= 1 and "foreign-accessor" not in roles
+
+
+def random_stmts(rng, n, scope, depth=0):
+    """Straight-line (every statement executes) body: defs with any decorator mix, other binders, if-True / try / with nesting."""
+    out = []
+    for _ in range(n):
+        name = rng.choice(NAMES)
+        r = rng.random()
+        if r < 0.06 and depth < 2:
+            out.append((rng.choice(["if_t", "try", "with"]), random_stmts(rng, rng.randint(1, 3), scope, depth + 1)))
+            continue
+        if r < 0.14:
+            out.append(("bind", name, rng.choice(["class", "import"])))
+            continue
+        decos = []
+        r = rng.random()
+        if r < 0.27:
+            decos = [rng.choice(ROLE_OVERLOAD)]
+        elif r < 0.42:
+            decos = [rng.choice(ROLE_PROPERTY) if rng.random() < 0.3 else "property"]
+        elif r < 0.57:
+            decos = [f"{rng.choice(NAMES) if rng.random() < 0.2 else name}.setter"]
+        elif r < 0.67:
+            decos = [f"{rng.choice(NAMES) if rng.random() < 0.2 else name}.deleter"]
+        elif r < 0.74:
+            decos = [rng.choice(["other", "functools.cache", "abstractmethod"] if scope == "class" else ["other", "functools.cache"])]
+        role_free = not decos or decos[0] in ("other", "functools.cache", "abstractmethod")
+        if decos and rng.random() < 0.25:
+            decos.insert(rng.randint(0, len(decos)), "other")
+        if rng.random() < 0.05:
+            decos.insert(rng.randint(0, len(decos)), rng.choice(["overload", "property", f"{name}.setter"]))
+            role_free = False
+        # wrappers that are transparent for CPython only right above the def (abstractmethod cannot mark a property,
+        # a functools.cache wrapper has no __code__ for typing.overload to register)
+        if decos and not role_free and rng.random() < 0.2:
+            decos.append(rng.choice(["abstractmethod", "staticmethod", "classmethod"] if scope == "class" else ["other"]))
+        if any(deco_role(d, name) for d in decos):
+            decos = ["other" if d == "functools.cache" else d for d in decos]
+        out.append(("def", name, decos, rng.random() < 0.15))
+    return out
+
+
+def overload_block(rng, name, scope):
+    is_async = rng.random() < 0.2
+    wrap = rng.choice([None, None, "other", "staticmethod", "classmethod", "abstractmethod"]) if scope == "class" else rng.choice([None, None, "other"])
+    ov = rng.choice(ROLE_OVERLOAD)
+
+    def stack(base):
+        if wrap is None:
+            return list(base)
+        return [*base, wrap] if rng.random() < 0.6 else [wrap, *base]   # overload above (usual) or below the wrapper
+    return [("def", name, stack([ov]), is_async) for _ in range(rng.randint(1, 3))] + [("def", name, stack([]), is_async)]
+
+
+def property_block(rng, name, scope):
+    is_async = rng.random() < 0.2
+    if rng.random() < 0.15:
+        return [("def", name, [rng.choice(["functools.cached_property", "cached_property"])], False)]
+    head = ["property"] if rng.random() < 0.8 or scope != "class" else rng.choice([["property", "abstractmethod"], ["other", "property"]])
+    b = [("def", name, head, is_async)]
+    acc = []
+    if rng.random() < 0.7:
+        acc.append("setter")
+    if rng.random() < 0.5:
+        acc.append("deleter")
+    if acc and rng.random() < 0.2:
+        acc.append(rng.choice(acc))          # an accessor given twice: the later one wins on both sides
+    rng.shuffle(acc)
+    for a in acc:
+        b.append(("def", name, [f"{name}.{a}"] if rng.random() < 0.85 else ["other", f"{name}.{a}"], False))
+    return b
+
+
+def name_block(rng, name, scope):
+    r = rng.random()
+    if r < 0.55:
+        return overload_block(rng, name, scope)
+    if r < 0.9:
+        return property_block(rng, name, scope)
+    return [("def", name, [], rng.random() < 0.2)] if rng.random() < 0.6 else [("bind", name, rng.choice(["class", "import"]))]
+
+
+def idiomatic_stmts(rng, scope):
+    """Complete blocks per name (overloads then implementation; property then accessors), possibly several per name in
+    sequence (redefinition) or one in each branch of an if/else whose else branch is the one that runs; statements of
+    different names interleave freely, each name keeping its own order."""
+    order = NAMES[:]
+    rng.shuffle(order)
+    queues = []
+    while order:
+        name = order.pop()
+        r = rng.random()
+        if r < 0.3:
+            partner = order.pop() if order and rng.random() < 0.3 else None
+            names = [name] + ([partner] if partner else [])
+
+            def branch():
+                qs = [name_block(rng, n, scope) for n in names]
+                out = []
+                while any(qs):
+                    q = rng.choice([q for q in qs if q])
+                    out.append(q.pop(0))
+                return out
+            pre = name_block(rng, name, scope) if rng.random() < 0.3 else []
+            queues.append(pre + [("if_else", branch(), branch())])
+        elif r < 0.4:
+            queues.append([("if_t", name_block(rng, name, scope))] + (name_block(rng, name, scope) if rng.random() < 0.5 else []))
+        else:
+            q = name_block(rng, name, scope)
+            for _ in range(2):
+                if rng.random() < 0.35:
+                    q = q + name_block(rng, name, scope)
+            queues.append(q)
+    out = []
+    while any(queues):
+        q = rng.choice([q for q in queues if q])
+        out.append(q.pop(0))
+    return out
+
+
+def render_body(stmts, scope):
+    """Returns (source, flattened items in source order, executed items); item = ('def'|'bind', line, name, decos, executed)."""
+    lines = list(PRELUDE)
+    base = ""
+    if scope == "class":
+        lines.append("class C:")
+        base = "    "
+    elif scope == "function":
+        lines += ["class C:", "    def __init__(self):"]
+        base = "        "
+    items = []
+
+    def emit(stmts, ind, live):
+        if not stmts:
+            lines.append(f"{ind}pass")
+        for st in stmts:
+            kind = st[0]
+            if kind == "def":
+                _, name, decos, is_async = st
+                for d in decos:
+                    lines.append(f"{ind}@{d}")
+                lines.append(f"{ind}{'async ' if is_async else ''}def {name}(self=None): ...")
+                items.append(("def", len(lines), name, list(decos), live))
+            elif kind == "bind":
+                _, name, how = st
+                lines.append(f"{ind}class {name}: pass" if how == "class" else f"{ind}from os import path as {name}")
+                items.append(("bind", len(lines), name, how, live))
+            elif kind == "if_t":
+                lines.append(f"{ind}if FLAG_T:")
+                emit(st[1], ind + "    ", live)
+            elif kind == "try":
+                lines.append(f"{ind}try:")
+                emit(st[1], ind + "    ", live)
+                lines.append(f"{ind}finally:")
+                lines.append(f"{ind}    pass")
+            elif kind == "with":
+                lines.append(f"{ind}with nullcontext():")
+                emit(st[1], ind + "    ", live)
+            elif kind == "if_else":
+                lines.append(f"{ind}if FLAG_F:")
+                emit(st[1], ind + "    ", False)
+                lines.append(f"{ind}else:")
+                emit(st[2], ind + "    ", live)
+            else:
+                raise AssertionError(st)
+    emit(stmts, base, True)
+    if scope == "function":
+        lines.append("C()")
+    return "\n".join(lines) + "\n", items
+
+
+SCOPE_PATH = {"module": "m", "class": "m.C", "function": "m.C.__init__"}
+
+
+def model_items(items, scope, only_live=False):
+    out = []
+    for it in items:
+        if only_live and not it[4]:
+            continue
+        if it[0] == "def":
+            _, line, name, decos, _ = it
+            paths = []
+            for d in decos:
+                if d in DECO_PATHS:
+                    paths.append(["path", DECO_PATHS[d]])
+                else:
+                    paths.append(["path", f"{SCOPE_PATH[scope]}.{d}"])       # <name>.setter / <name>.deleter
+            out.append(["def", line, name, f"{SCOPE_PATH[scope]}.{name}", paths])
+        else:
+            out.append(["bind", it[1], it[2]])
+    return out
 
 
 def _def_line(fn):
@@ -316,79 +876,308 @@ def _def_line(fn):
     return fn.lineno + len(fn.decorators) if fn.decorators else fn.lineno
 
 
+def make_capture():
+    import griffe
+
+    class Capture(griffe.Extension):
+        """Records, for every object the visitor creates in the scope under test, what happened to it at that moment."""
+
+        def __init__(self, scope_path):
+            self.scope_path = scope_path
+            self.log = {}        # line -> outcome
+            self.impls = {}      # line -> Function set as member (to re-read its overloads after the visit)
+
+        def _here(self, agent):
+            return agent.current.path == self.scope_path
+
+        def on_function_instance(self, *, node, func, agent, **kwargs):
+            if not self._here(agent) or func.name not in NAMES:
+                return
+            cur = agent.current
+            member = cur.members.get(func.name)
+            registry = cur.overloads if cur.kind.value in ("module", "class") else {}
+            if member is func:
+                self.log[node.lineno] = ["impl", [_def_line(o) for o in (func.overloads or [])]]
+                self.impls[node.lineno] = func
+            elif member is not None and not member.is_alias and member.kind.value == "attribute" and member.setter is func:
+                self.log[node.lineno] = ["setter", member.lineno]
+            elif member is not None and not member.is_alias and member.kind.value == "attribute" and member.deleter is func:
+                self.log[node.lineno] = ["deleter", member.lineno]
+            elif any(o is func for o in (registry.get(func.name) or [])):
+                self.log[node.lineno] = ["overload"]
+            else:
+                self.log[node.lineno] = ["dropped"]
+
+        def on_attribute_instance(self, *, node, attr, agent, **kwargs):
+            if self._here(agent) and attr.name in NAMES and isinstance(node, (ast.FunctionDef, ast.AsyncFunctionDef)):
+                self.log[node.lineno] = ["property"]
+
+        def on_class_instance(self, *, node, cls, agent, **kwargs):
+            if agent.current.path == f"{self.scope_path}.{cls.name}" and cls.name in NAMES:   # current is already the new class
+                self.log[node.lineno] = ["bind"]
+
+        def on_alias(self, *, node, alias, agent, **kwargs):
+            if self._here(agent) and alias.name in NAMES:
+                self.log[node.lineno] = ["bind"]
+
+    return Capture
+
+
+_CAPTURE = None
+
+
+def impl_body(src, scope, items):
+    """[members, pending overloads, per-definition outcomes] as the model prints them, plus the overload lists re-read at the end."""
+    import griffe
+    global _CAPTURE
+    if _CAPTURE is None:
+        _CAPTURE = make_capture()
+    cap = _CAPTURE(SCOPE_PATH[scope])
+    mod = griffe.visit("m", filepath=None, code=src, extensions=griffe.load_extensions(cap))
+    obj = mod if scope == "module" else mod.members["C"] if scope == "class" else mod.members["C"].members["__init__"]
+    mem = []
+    for name, m in obj.members.items():
+        if name not in NAMES:
+            continue
+        if m.is_alias:
+            mem.append([name, "other", m.alias_lineno])
+        elif m.kind.value == "function":
+            mem.append([name, "function", _def_line(m), [_def_line(o) for o in (m.overloads or [])]])
+        elif m.kind.value == "attribute" and "property" in m.labels:
+            mem.append([name, "property", m.lineno, [] if m.setter is None else [_def_line(m.setter)], [] if m.deleter is None else [_def_line(m.deleter)]])
+        else:
+            mem.append([name, "other", m.lineno])
+    registry = obj.overloads if scope != "function" else {}
+    buf = sorted([k, [_def_line(o) for o in v]] for k, v in registry.items() if v and k in NAMES)  # defaultdict key order is not observable
+    log = [cap.log.get(it[1], ["missing"]) for it in items]
+    final = {line: [_def_line(o) for o in (fn.overloads or [])] for line, fn in cap.impls.items()}
+    return [mem, buf, log], final
+
+
 def norm_model_scope(ms):
-    mem, buf = ms
-    return [mem, sorted(b for b in buf if b[1])]
+    mem, buf, log = ms
+    return [mem, sorted(b for b in buf if b[1]), log]
 
 
-def oracle_body(src, scope):
-    """CPython's view: {name: ('function', defline, [overload deflines]) | ('property', fget line, fset line, fdel line)}."""
+def _unwrap(o):
+    seen = 0
+    while seen < 5:
+        seen += 1
+        if isinstance(o, (staticmethod, classmethod)):
+            o = o.__func__
+        elif hasattr(o, "__wrapped__"):
+            o = o.__wrapped__
+        else:
+            break
+    return o
+
+
+def oracle_body(src, scope, items):
+    """CPython's view after executing the body: namespace entries of the generated names and typing's overload registry.
+    Lines are def lines (co_firstlineno is the first decorator's line)."""
+    import functools
+    first_to_def = {}
+    for node in ast.walk(ast.parse(src)):
+        if isinstance(node, (ast.FunctionDef, ast.AsyncFunctionDef)):
+            first_to_def[node.decorator_list[0].lineno if node.decorator_list else node.lineno] = node.lineno
+    bind_lines = {}
+    for it in items:
+        if it[0] == "bind" and it[4]:
+            bind_lines[it[2]] = it[1]        # the last executed binder of that name
     typing.clear_overloads()
     ns = {"__name__": "c02mod"}
     sys.modules.pop("c02mod", None)
-    exec(compile(src, "<c02body>", "exec", dont_inherit=True), ns)
+    try:
+        exec(compile(src, "<c02body>", "exec", dont_inherit=True), ns)
+    except Exception as e:  # noqa: BLE001
+        return ["err", type(e).__name__]
     holder = ns["C"].__dict__ if scope == "class" else ns
-    out = {}
+    line = lambda fn: first_to_def[_unwrap(fn).__code__.co_firstlineno]
+    view = {}
     for name in NAMES:
         if name not in holder:
             continue
         o = holder[name]
-        if isinstance(o, (staticmethod, classmethod)):
-            o = o.__func__
-        if isinstance(o, property):
-            out[name] = ["property", o.fget.__code__.co_firstlineno, None if o.fset is None else o.fset.__code__.co_firstlineno,
-                         None if o.fdel is None else o.fdel.__code__.co_firstlineno]
-        elif inspect.isfunction(o):
-            out[name] = ["function", o.__code__.co_firstlineno, [getattr(x, "__func__", x).__code__.co_firstlineno for x in typing.get_overloads(o)]]
-    return out
+        raw = _unwrap(o)
+        try:
+            if isinstance(o, property):
+                view[name] = ["property", line(o.fget), [] if o.fset is None else [line(o.fset)], [] if o.fdel is None else [line(o.fdel)]]
+            elif isinstance(o, functools.cached_property):
+                view[name] = ["property", line(o.func), [], []]
+            elif inspect.isfunction(raw) and raw.__module__ == "typing":
+                view[name] = ["dummy"]
+            elif inspect.isfunction(raw):
+                view[name] = ["function", line(raw)]
+            else:
+                view[name] = ["other", bind_lines.get(name, 0)]
+        except (AttributeError, KeyError):
+            return ["err", "unsupported"]       # e.g. property(property(...)), property(<overload dummy>): outside the modelled shapes
+    reg = {}
+    for name in NAMES:
+        probe = types.SimpleNamespace(__module__="c02mod", __qualname__=f"C.{name}" if scope == "class" else name)
+        got = [line(f) for f in typing.get_overloads(probe)]
+        if got:
+            reg[name] = got
+    return ["ok", view, reg]
 
 
-def check_bodies(ctx, n_random, n_idiom):
+def norm_cpy_model(mo):
+    if mo[0] != "ok":
+        return mo
+    view = {}
+    for e in mo[1]:
+        if e[1] == "function":
+            view[e[0]] = ["function", e[2]]
+        elif e[1] == "property":
+            view[e[0]] = ["property", e[2], e[3], e[4]]
+        elif e[1] == "dummy":
+            view[e[0]] = ["dummy"]
+        else:
+            view[e[0]] = ["other", e[2]]
+    return ["ok", view, {k: v for k, v in mo[2] if v}]
+
+
+def direct_body_check(items, impl, final, orc):
+    """Griffe vs CPython, no model: (P1) members against the namespace, (P2) typing's registry = concatenation of the overload
+    lists Griffe attached to the executed implementations of the name + the executed pending ones.  Returns None or a detail."""
+    (mem, buf, log) = impl
+    _, view, reg = orc
+    live = {it[1] for it in items if it[4]}
+    members = {m[0]: m for m in mem}
+    for name, v in view.items():
+        m = members.get(name)
+        if v[0] == "function" and (m is None or m[1] != "function" or m[2] != v[1]):
+            return {"check": "member", "name": name, "griffe": m, "cpython": v}
+        if v[0] == "property" and (m is None or m[1:] != v):
+            return {"check": "member", "name": name, "griffe": m, "cpython": v}
+        if v[0] == "other" and (m is None or m[1] != "other"):
+            return {"check": "member", "name": name, "griffe": m, "cpython": v}
+    pending = dict((k, v) for k, v in buf)
+    for name in NAMES:
+        attached = []
+        for it, o in zip(items, log):
+            if it[0] == "def" and it[2] == name and it[4] and o[0] == "impl":
+                attached += final.get(it[1], o[1])
+        got = attached + [l for l in pending.get(name, []) if l in live]
+        if got != reg.get(name, []):
+            return {"check": "overloads", "name": name, "griffe_attached_then_pending": got, "cpython_get_overloads": reg.get(name, [])}
+    return None
+
+
+def body_cases(ctx, n_random, n_idiom, n_function):
+    rng = ctx.rng
     cases = []
     for i in range(n_random):
         scope = "class" if i % 3 else "module"
-        defs = random_body(ctx.rng, ctx.rng.randint(1, 7))
-        cases.append(("random", scope, defs))
+        cases.append(("random", scope, random_stmts(rng, rng.randint(1, 8), scope)))
     for i in range(n_idiom):
-        sc = "class" if i % 2 else "module"
-        cases.append(("idiom", sc, idiomatic_body(ctx.rng, sc)))
-    srcs = [render_body(d, s) for _, s, d in cases]
-    model_out = ctx.model([["fseq", abstract_body(src, c[1])] for c, src in zip(cases, srcs)])
-    for (stream, scope, defs), src, mo in zip(cases, srcs, model_out):
-        ctx.case({"scope": scope, "defs": defs}, any(d for _, d, _a in defs))
-        ctx.observe("body_stream", stream)
-        ctx.observe("body_len", len(defs))
-        for _, ds, is_async in defs:
-            ctx.observe("async_def", is_async)
-            for d in ds:
-                ctx.observe("decorator", d.split(".")[-1])
+        scope = "class" if i % 2 else "module"
+        cases.append(("idiom", scope, idiomatic_stmts(rng, scope)))
+    for i in range(n_function):
+        cases.append(("function-scope", "function", random_stmts(rng, rng.randint(1, 6), "module")))
+    return cases
+
+
+def flat_defs(stmts):
+    for st in stmts:
+        if st[0] == "def":
+            yield st
+        elif st[0] in ("if_t", "try", "with"):
+            yield from flat_defs(st[1])
+        elif st[0] == "if_else":
+            yield from flat_defs(st[1])
+            yield from flat_defs(st[2])
+
+
+def check_bodies(ctx, n_random, n_idiom, n_function, use_model=True):
+    cases = body_cases(ctx, n_random, n_idiom, n_function)
+    rendered = [render_body(st, sc) for _, sc, st in cases]
+    if use_model:
+        m_scope = ctx.model([["items", 0 if c[1] == "function" else 1, model_items(items, c[1])] for c, (src, items) in zip(cases, rendered)])
+        m_cpy = ctx.model([["cpy", model_items(items, c[1], only_live=True)] for c, (src, items) in zip(cases, rendered)])
+    else:
+        m_scope = m_cpy = [None] * len(cases)
+    for (stream, scope, stmts), (src, items), mo, mc in zip(cases, rendered, m_scope, m_cpy):
+        defs = list(flat_defs(stmts))
+        if use_model:
+            ctx.case({"stream": stream, "scope": scope, "body": stmts}, any(d[2] for d in defs))
+            ctx.observe("body_stream", stream)
+            ctx.observe("body_scope", scope)
+            ctx.observe("body_len", len(items))
+            ctx.observe("body_dead_items", sum(1 for it in items if not it[4]))
+            for d in defs:
+                ctx.observe("async_def", d[3])
+                for x in d[2]:
+                    ctx.observe("decorator", x.split(".")[-1] if x.endswith(("setter", "deleter")) else x)
+            groups = {}
+            for it in items:
+                if it[0] == "def" and not any(deco_role(x, it[2]) for x in it[3]):
+                    groups[it[2]] = groups.get(it[2], 0) + 1
+            ctx.observe("max_impls_per_name", max(groups.values(), default=0))
+        else:
+            ctx.evaluations += 1
         try:
-            impl = impl_body(src, scope)
+            impl, final = impl_body(src, scope, items)
         except Exception as e:  # noqa: BLE001
-            impl = ["err", type(e).__name__]
-        if norm_model_scope(mo) != impl:
-            ctx.tie_failure("correspondence", "handle_function(model) vs griffe.visit members/overloads", {"model": mo, "impl": impl}, {"source": src})
+            impl, final = ["err", type(e).__name__], {}
+            ctx.property_failure({"source": src}, {"griffe": "visit raised " + repr(e)})
+            if not use_model:
+                return True
+            continue
+        if use_model:
+            for o in impl[2]:
+                ctx.observe("outcome", o[0])
+            if norm_model_scope(mo) != impl:
+                ctx.tie_failure("correspondence", "handle_function(model) vs griffe.visit members / pending overloads / per-definition outcomes",
+                                {"model": norm_model_scope(mo), "impl": impl}, {"source": src})
+            stale = {l: (o[1], final[l]) for it, o in zip(items, impl[2]) for l in [it[1]] if o[0] == "impl" and final.get(l) != o[1]}
+            if stale:
+                ctx.tie_failure("correspondence", "overload list of an implementation changed after it was attached (model: final at attachment)",
+                                {"line: (at attachment, after the visit)": stale}, {"source": src})
         ctx.count("body_cases")
-        if stream == "idiom":
-            # decorator lines: first-decorator line differs from def line; co_firstlineno is the first decorator line
-            orc = oracle_body(src, scope)
-            tree = ast.parse(src)
-            firstline = {}
-            body = tree.body[-1].body if scope == "class" else tree.body
-            for n in body:
-                if isinstance(n, (ast.FunctionDef, ast.AsyncFunctionDef)):
-                    firstline[n.lineno] = n.decorator_list[0].lineno if n.decorator_list else n.lineno
-            got = {}
-            if impl[0] != "err":
-                for m in impl[0]:
-                    if m[1] == "function":
-                        got[m[0]] = ["function", firstline[m[2]], [firstline[x] for x in m[3]]]
-                    elif m[1] == "property":
-                        got[m[0]] = ["property", firstline[m[2]], firstline[m[3][0]] if m[3] else None, firstline[m[4][0]] if m[4] else None]
-            if got != orc:
-                ctx.property_failure({"source": src}, {"griffe": got, "cpython": orc})
+        if scope == "function":
+            continue
+        # CPython
+        cached_then_accessor = False
+        seen_cached = set()
+        for it in items:
+            if it[0] == "def" and it[4]:
+                if any(x in ("functools.cached_property", "cached_property") for x in it[3]):
+                    seen_cached.add(it[2])
+                elif any(deco_role(x, it[2]) == "accessor" for x in it[3]) and it[2] in seen_cached:
+                    cached_then_accessor = True
+                elif not any(deco_role(x, it[2]) == "overload" for x in it[3]):
+                    seen_cached.discard(it[2])
+            elif it[0] == "bind" and it[4]:
+                seen_cached.discard(it[2])
+        orc = oracle_body(src, scope, items)
+        if use_model:
+            ctx.observe("cpython_exec", orc[0] if orc[0] == "ok" else orc[1])
+            mcn = norm_cpy_model(mc)
+            ctx.observe("cpy_model", mcn[0] if mcn[0] == "ok" else mcn[1])
+            if mcn[0] == "err" and mcn[1] == "unsupported":
+                pass          # shapes the CPython model declines (a role decorator on a non-function, foreign accessors)
+            elif cached_then_accessor:
+                ctx.count("oracle_skipped_cached_property_accessor")
+            elif mcn != orc:
+                ctx.tie_failure("oracle", "cpy_exec(model) vs exec + typing.get_overloads + property objects", {"model": mcn, "cpython": orc}, {"source": src})
+        if orc[0] != "ok":
+            if stream == "idiom":
+                ctx.tie_failure("harness", "idiomatic body does not execute", {"cpython": orc}, {"source": src})
+            continue
+        if not all(supported_def(it[2], it[3]) for it in items if it[0] == "def"):
+            ctx.count("direct_skipped_unsupported_decorator_stack")
+            continue
+        bad = direct_body_check(items, impl, final, orc)
+        ctx.count("body_direct_checks")
+        if bad:
+            ctx.property_failure({"source": src, "scope": scope}, bad)
+            if not use_model:
+                return True
+    return False
 
 
+# =====================================================================================================================
 def explore(ctx):
     if ctx.quick:
         small = list(vectors(2))
@@ -398,64 +1187,54 @@ def explore(ctx):
         vecs = list(vectors(3))
         ctx.exhaustive = True
     check_signatures(ctx, vecs, "exhaustive-small")
-    check_bodies(ctx, ctx.budget(600, 8000), ctx.budget(400, 4000))
+    check_malformed_arguments(ctx)
+    check_bodies(ctx, ctx.budget(700, 8000), ctx.budget(700, 8000), ctx.budget(150, 1500))
     # after the bodies (which contain decorated coroutines, properties, ...): state must not leak between definitions
     check_signatures(ctx, [random_vector(ctx.rng) for _ in range(ctx.budget(300, 4000))], "random<=8")
+    bound = [v for v in vectors(2)] if ctx.quick else vecs
+    check_bound_views(ctx, bound + [random_vector(ctx.rng, 5) for _ in range(ctx.budget(200, 2000))])
+    check_container(ctx, ctx.budget(700, 8000))
     if not ctx.quick:
-        arg = lambda n: [n, []]
-        sample = [["params", abstract_arguments(find_def(ast.parse(f"def f({render_sig(v, True)}): ..."), ("f",)).args)] for v in ctx.rng.sample(vecs, 40)]
+        sample = [["params", abstract_arguments(find_def(ast.parse(f"def f({render_sig(v, True)}): ..."), ("f",)).args)] for v in ctx.rng.sample(vecs, 20)]
+        for origin, init, _params, ops in container_cases(ctx, 12):
+            sample.append(["ops", init, ops[:25]])
+        for stream, scope, stmts in body_cases(ctx, 6, 6, 2):
+            src, items = render_body(stmts, scope)
+            sample.append(["items", 0 if scope == "function" else 1, model_items(items, scope)])
+            sample.append(["cpy", model_items(items, scope, only_live=True)])
         ctx.cross_check_extraction(sample)
 
 
 def search(ctx):
-    """A tie broke and no direct failure was seen yet: evaluate the property on the implementation over a wider space."""
-    vecs = list(vectors(3))
-    ctx.driver_backup = ctx.driver
-    for idx, v in enumerate(vecs):
-        for ann in (False, True):
-            src, path, _ = contexts(render_sig(v, ann), idx % 4, ret=ann)
-            try:
-                impl = ["ok", impl_params(src, path)[0]]
-            except Exception as e:  # noqa: BLE001
-                impl = ["err", type(e).__name__]
-            orc, _ = oracle_params(src, path)
-            ctx.evaluations += 1
-            if impl != ["ok", orc]:
-                ctx.property_failure({"source": src, "path": list(path)}, {"griffe": impl, "cpython": orc})
-                return
-    for i in range(3000):
-        scope = "class" if i % 2 else "module"
-        src = render_body(idiomatic_body(ctx.rng, scope), scope)
-        # re-use the idiom comparison through check_bodies' logic would need the model; inline the direct check
-        try:
-            impl = impl_body(src, scope)
-        except Exception as e:  # noqa: BLE001
-            ctx.property_failure({"source": src}, {"griffe": type(e).__name__})
-            return
-        orc = oracle_body(src, scope)
-        tree = ast.parse(src)
-        body = tree.body[-1].body if scope == "class" else tree.body
-        firstline = {n.lineno: (n.decorator_list[0].lineno if n.decorator_list else n.lineno) for n in body if isinstance(n, (ast.FunctionDef, ast.AsyncFunctionDef))}
-        got = {}
-        for m in impl[0]:
-            if m[1] == "function":
-                got[m[0]] = ["function", firstline[m[2]], [firstline[x] for x in m[3]]]
-            elif m[1] == "property":
-                got[m[0]] = ["property", firstline[m[2]], firstline[m[3][0]] if m[3] else None, firstline[m[4][0]] if m[4] else None]
-        ctx.evaluations += 1
-        if got != orc:
-            ctx.property_failure({"source": src}, {"griffe": got, "cpython": orc})
-            return
+    """A tie broke and no direct failure was seen yet: evaluate the property on the implementation over a wider space
+    (implementation against CPython / the abstract list only; the model is not consulted)."""
+    if check_signatures(ctx, list(vectors(3)), "search", use_model=False):
+        return
+    if check_bodies(ctx, 2000, 3000, 0, use_model=False):
+        return
+    if check_bound_views(ctx, list(vectors(2)) + [random_vector(ctx.rng, 5) for _ in range(1000)], use_model=False):
+        return
+    check_container(ctx, 4000, use_model=False)
 
 
 def replay(ctx, data):
     case = data.get("failing_input") or {}
+    print("detail:", data.get("detail"))
     src = case.get("source")
-    if not src:
-        print("replay names no input:", data.get("no_longer_checks"))
+    if src:
+        print(src)
+        if "view" in case:
+            return 0
+        if "path" in case:
+            print("griffe :", impl_params(src, tuple(case["path"])))
+            print("cpython:", oracle_params(src, tuple(case["path"])))
         return 0
-    print(src)
-    if "path" in case:
-        print("griffe :", impl_params(src, tuple(case["path"])))
-        print("cpython:", oracle_params(src, tuple(case["path"])))
+    if "container_init" in case:
+        import griffe
+        params = griffe.Parameters(*[make_griffe_param(p) for p in case["container_init"]])
+        ref = RefList(case["container_init"])
+        for op in case["ops"]:
+            print(op, "griffe:", impl_step(params, op), "abstract list:", ref.step(op))
+        return 0
+    print("replay names no input:", data.get("no_longer_checks"))
     return 0
